@@ -20,6 +20,13 @@ type prog struct {
 	// Cache: the program contains bigslice.Cache; every configuration runs it
 	// twice on a fresh directory (phase "cold" writes the cache, "warm" reads it).
 	Cache bool
+	// Stress: a combiner program with 6 producer shards that is run under the
+	// placement-stress configurations only (stressConfigs): clusters of 2 and 3
+	// machines with 1 and 2 task procs, MachineCombiners off and on, several
+	// invocations per session and several fresh sessions, so that many different
+	// assignments of producer shards to machines occur (machine-combined shuffles
+	// are read once per machine, so what a consumer reads depends on them).
+	Stress bool
 }
 
 var (
@@ -89,6 +96,17 @@ var programs = []prog{
 	{Name: "cogroup3", What: "three-way Cogroup with one source used twice (once filtered)",
 		P: refeval.Program{Shape: refeval.ShapeCogroup3, Src: constSrc(ii, 3, 9, refeval.KeysCollide), Src2: constSrc(ii, 2, 5, refeval.KeysCollide),
 			Ops: []refeval.Op{op(refeval.OpMap, refeval.MapGroupSum)}}},
+}
+
+func init() {
+	programs = append(programs,
+		prog{Name: "stress-reduce-6x3keys", Stress: true, What: "6 producer shards, 3 keys, Reduce: producer placement stress for machine combiners",
+			P: refeval.Program{Src: constSrc(ii, 6, 60, refeval.KeysDistinct),
+				Ops: []refeval.Op{op(refeval.OpMap, refeval.MapKeyMod3), op(refeval.OpReduce)}}},
+		prog{Name: "stress-reduce-6x600keys", Stress: true, What: "6 producer shards, 600 distinct keys, Reduce: producer placement stress with combiner spills",
+			P: refeval.Program{Src: constSrc(ii, 6, 600, refeval.KeysDistinct),
+				Ops: []refeval.Op{op(refeval.OpMap, refeval.MapAdd1), op(refeval.OpReduce)}}},
+	)
 }
 
 // ---- per-row counting through user metrics ----------------------------------
